@@ -20,7 +20,7 @@ def FLOORS(tier):
     q = tier == "quick"
     f = {"result-contract-checks": 2500 if q else 10 ** 5, "empty-or-constant-model": 60, "matrix-with-gaps": 100,
          "with-initial_state": 600, "num_anneals<=0": 300, "hook-dE-checks": 10 ** 5, "hook-exactness-verdicts": 2000, "schedule:one-shot-iterator": 30, "second-anneal-after-in-place-edit": 150,
-         "second-anneal:cancel": 20, "second-anneal:set0": 20, "second-anneal:with-initial_state": 15, "returned-state-scribbled": 300, "kwargs-spelled-as-numpy-scalars": 200, "constrained-model-with-ancillas": 40, "dict-with-explicit-zero-entries": 250, "initial_state-as-sequence": 400,
+         "second-anneal:cancel": 20, "second-anneal:set0": 20, "second-anneal:with-initial_state": 15, "returned-state-scribbled": 300, "kwargs-spelled-as-numpy-scalars": 200, "constrained-model-with-ancillas": 40, "dict-with-explicit-zero-entries": 60, "initial_state-as-sequence": 100,
          "user-mapping:set_mapping": 40, "user-mapping:set_reverse_mapping": 40, "coefficients:wide-big": 100, "coefficients:wide-small": 60}
     for fn in A.FUNCS:
         for t in A.ACCEPT[fn]:
